@@ -1,4 +1,4 @@
-import TR.Lemmas.CircuitState
+import TR.Lemmas.CircuitTrace
 /-!
 # C03 — an open circuit breaker shields the inner service
 
@@ -10,13 +10,153 @@ slow-call rate or `force_open`.
 namespace TR.Props.C03
 open TR TR.Circuit
 
-/-- In every reachable state in which the breaker is open, no inner call has been started
-since the transition that opened it (`callsSince` counts `inner_call` events after the last
-`transition` event of the log). Since this holds after *every* step, no step taken while the
-breaker stays open emits an `inner_call`. -/
+/-- In every reachable STATE (= between two steps) in which the breaker is open, no inner call has been started since the
+transition that opened it (`callsSince` counts `inner_call` events after the last `transition` event of the log).
+This is a statement about step boundaries only. It does NOT say that a step which starts and ends with the breaker open
+emits no `inner_call`: one poll can take the breaker open → half-open → open (a trial call admitted after the wait that fails at
+once), and that step does start an inner call — between two transition events. The statement about every position of the log is
+`open_shields_every_prefix` / `open_window` below. -/
 theorem open_shields (cfg : Cfg) (ops : List Op) (h : (run cfg ops).circ.st = .opened) :
     callsSince (run cfg ops).log = 0 :=
   (sinv_reachable cfg ops).shield h
+
+/-- The log of a run extends the log of each of its earlier stages: events are only ever appended. -/
+theorem log_only_grows (cfg : Cfg) (ops : List Op) (n : Nat) : (run cfg (ops.take n)).log <+: (run cfg ops).log :=
+  log_prefix cfg ops n
+
+/-- **Every event-level prefix of every reachable log** (cut anywhere, also in the middle of a step): if the last transition
+event of the prefix went to open, the prefix contains no `inner_call` event after it. -/
+theorem open_shields_every_prefix (cfg : Cfg) (ops : List Op) (n : Nat)
+    (h : lastTarget ((run cfg ops).log.take n) = .opened) : callsSince ((run cfg ops).log.take n) = 0 := by
+  have hok := tr_ok_take cfg _ n (tinv_reachable cfg ops).ok
+  have hf := tr_fields cfg ((run cfg ops).log.take n)
+  have hg := (tr_ok_good cfg _ hok).1
+  rw [hf.1, hf.2.2.1] at hg
+  exact hg h
+
+/-- **Trace-level shielding.** Take any `→ open` transition event of a reachable log — position `i`, instant `t0` — and any later
+position `n` such that no transition event lies strictly between them ("until the next transition event"). Then
+* the event at `n` is not an `inner_call` — no call reaches the wrapped service; and
+* if the event at `n` is itself a transition (the next one), it leaves `open`, and either goes to half-open at an instant
+  `≥ t0 + wait_duration_in_open`, or goes to closed and is an override: the last event before it that is not a transition is
+  the operator's `manual force_closed` / `manual reset`, or `manual yield` (the scheduler running the task of a
+  `trigger_healthy()` health signal) — `afterOverride`.
+For all configurations, operation sequences (any number of callers on clones, every interleaving), with and without fallback. -/
+theorem open_window (cfg : Cfg) (ops : List Op) (i n t0 : Nat) (a m : St)
+    (hi : (run cfg ops).log[i]? = some (t0, .transition a .opened m)) (hin : i < n)
+    (hq : ∀ j, i < j → j < n → ¬ trAt (run cfg ops).log j) :
+    (∀ t c k, (run cfg ops).log[n]? ≠ some (t, .innerCall c k)) ∧
+    (∀ tn x y z, (run cfg ops).log[n]? = some (tn, .transition x y z) →
+      x = .opened ∧ ((y = .halfOpen ∧ t0 + cfg.waitMs ≤ tn) ∨
+                     (y = .closed ∧ afterOverride ((run cfg ops).log.take n) = true))) := by
+  have hok := (tinv_reachable cfg ops).ok
+  have hn : n = i + 1 + (n - i - 1) := by omega
+  have hsum := summaries_after_transition (run cfg ops).log i t0 a .opened m hi (n - i - 1)
+    (fun j h1 h2 => hq j h1 (by omega))
+  rw [← hn] at hsum
+  have hf := tr_fields cfg ((run cfg ops).log.take n)
+  constructor
+  · intro t c k hp
+    have := evOK_call cfg _ t c k (tr_ok_at cfg _ n _ hp hok)
+    rw [hf.1, hsum.1] at this
+    exact this rfl
+  · intro tn x y z hp
+    have := evOK_transition cfg _ tn x y z (tr_ok_at cfg _ n _ hp hok)
+    rw [hf.1, hf.2.1, hf.2.2.2.2, hsum.1, hsum.2] at this
+    exact ⟨this.1, this.2.2.2 this.1⟩
+
+/-- The same in "there is a transition in between" form: if an `inner_call` event stands after a `→ open` transition event,
+then a transition event lies strictly between them; the FIRST such one leaves `open` for half-open no earlier than
+`t0 + wait_duration_in_open`, or for closed by an override; and no `inner_call` stands before it. -/
+theorem open_interval (cfg : Cfg) (ops : List Op) (i j t0 t c k : Nat) (a m : St)
+    (hi : (run cfg ops).log[i]? = some (t0, .transition a .opened m))
+    (hj : (run cfg ops).log[j]? = some (t, .innerCall c k)) (hij : i < j) :
+    ∃ n tn y z, i < n ∧ n < j ∧ (run cfg ops).log[n]? = some (tn, .transition .opened y z) ∧
+      (∀ n', i < n' → n' < n → ¬ trAt (run cfg ops).log n') ∧
+      (∀ n' t' c' k', i < n' → n' < n → (run cfg ops).log[n']? ≠ some (t', .innerCall c' k')) ∧
+      ((y = .halfOpen ∧ t0 + cfg.waitMs ≤ tn) ∨ (y = .closed ∧ afterOverride ((run cfg ops).log.take n) = true)) := by
+  rcases first_transition (run cfg ops).log i (j - i - 1) with h | ⟨n, h1, h2, ⟨tn, x, y, z, hp⟩, h4⟩
+  · exfalso
+    exact (open_window cfg ops i j t0 a m hi hij (fun n h1 h2 => h n h1 (by omega))).1 t c k hj
+  · have hw := (open_window cfg ops i n t0 a m hi h1 h4).2 tn x y z hp
+    refine ⟨n, tn, y, z, h1, by omega, by rw [hp, hw.1], h4, ?_, hw.2⟩
+    intro n' t' c' k' g1 g2
+    exact (open_window cfg ops i n' t0 a m hi g1 (fun q q1 q2 => h4 q q1 (by omega))).1 t' c' k'
+
+/-- **From "observed open" to the event `open_window` starts from.** Whoever observes the breaker open between two operations —
+through the lock-free view (`state_sync()`, `is_open()`, `http_status() = 503`), the async view, or by having heard the last
+transition — is after a `→ open` transition event of the log: it is there, no transition event stands after it, and its instant
+is `last_state_change`. So `open_window` applies from that position: no `inner_call` until the next transition event. -/
+theorem observed_open_has_its_event (cfg : Cfg) (ops : List Op) (h : (run cfg ops).circ.mirror = .opened) :
+    ∃ i t0 a m, (run cfg ops).log[i]? = some (t0, .transition a .opened m) ∧
+      (∀ j, i < j → ¬ trAt (run cfg ops).log j) ∧ t0 = (run cfg ops).circ.lastChange := by
+  have hs := sinv_reachable cfg ops
+  have hst : (run cfg ops).circ.st = .opened := by rw [← hs.circ.mirror]; exact h
+  obtain ⟨i, t0, a, m, hi, hafter⟩ := last_transition_event (run cfg ops).log .opened (by simp) (hs.target.trans hst)
+  refine ⟨i, t0, a, m, hi, hafter, ?_⟩
+  have := (summaries_after_transition (run cfg ops).log i t0 a .opened m hi (run cfg ops).log.length
+    (fun j h1 _ => hafter j h1)).2
+  rw [List.take_of_length_le (by omega)] at this
+  rw [← this]
+  exact hs.trTime
+
+/-- **What a listener sees.** `transition_to` announces a transition BEFORE it applies it: for every `transition a b` event of
+every reachable log, a listener that reads `state_sync()` (`is_open()`, `http_status()`, …) inside its `on_state_transition`
+callback reads `a` — the state the breaker is leaving (`m`, third field of the event), never `b`; and `a` is the state the
+previous transition event led to. (After the callback returns — from the next operation on — the views say `b`: `mirror_agrees`.) -/
+theorem listener_sees_state_before_transition (cfg : Cfg) (ops : List Op) (n t : Nat) (a b m : St)
+    (hp : (run cfg ops).log[n]? = some (t, .transition a b m)) :
+    m = a ∧ a ≠ b ∧ a = lastTarget ((run cfg ops).log.take n) := by
+  have := evOK_transition cfg _ t a b m (tr_ok_at cfg _ n _ hp (tinv_reachable cfg ops).ok)
+  rw [(tr_fields cfg _).1] at this
+  exact ⟨this.2.2.1, this.2.1, this.1⟩
+
+/-- A step taken from a reachable open state whose new events contain no transition event (the breaker "stays open" in the
+strict sense: nobody is told about any transition) starts no inner call. -/
+theorem no_inner_call_while_no_transition (cfg : Cfg) (ops : List Op) (op : Op) (hst : (run cfg ops).circ.st = .opened)
+    (hq : ∀ p ∈ (stepS cfg (run cfg ops) op).log.drop (run cfg ops).log.length, ∀ a b m, p.2 ≠ CEv.transition a b m) :
+    ∀ p ∈ (stepS cfg (run cfg ops) op).log.drop (run cfg ops).log.length, ∀ c k, p.2 ≠ CEv.innerCall c k := by
+  obtain ⟨x, hx⟩ := stepS_log_prefix cfg (run cfg ops) op
+  have hrun : stepS cfg (run cfg ops) op = run cfg (ops ++ [op]) := by simp [run, List.foldl_append]
+  rw [← hx, List.drop_left] at hq ⊢
+  intro p hp c k hpk
+  obtain ⟨j, hj, hjp⟩ := List.getElem_of_mem hp
+  have hget : (run cfg (ops ++ [op])).log[(run cfg ops).log.length + j]? = some p := by
+    rw [← hrun, ← hx, List.getElem?_append_right (Nat.le_add_right _ _)]
+    simp [hjp, hj]
+  have hok := tr_ok_at cfg _ _ _ hget (tinv_reachable cfg (ops ++ [op])).ok
+  have htake : (run cfg (ops ++ [op])).log.take ((run cfg ops).log.length + j) = (run cfg ops).log ++ x.take j := by
+    rw [← hrun, ← hx, List.take_length_add_append]
+  obtain ⟨t, e⟩ := p
+  simp only at hpk
+  subst hpk
+  have := evOK_call cfg _ t c k hok
+  rw [(tr_fields cfg _).1, htake, lastTarget_append_quiet _ _ (fun q hq' => hq q (List.mem_of_mem_take hq'))] at this
+  exact this ((sinv_reachable cfg ops).target.trans hst)
+
+/-- **Calls admitted before it opened may still complete.** A call in flight whose inner call is over is, when polled while
+the breaker is open, completed: its `inner_done` and its own result are the two events of that step, its outcome is
+recorded, and the breaker stays open (no transition is announced). Holds in any state. -/
+theorem running_completes_while_open (cfg : Cfg) (s : State) (c : Nat) (r : Caller) (hst : s.circ.st = .opened)
+    (hf : findFresh s.fresh c = none) (hfl : findFalling s.falling c = none) (hr : findRunning s.running c = some r)
+    (hd : s.now ≥ r.doneAt) (hn : r.out ≠ .never) :
+    (stepS cfg s (.poll c)).log = s.log ++ [(s.now, CEv.innerDone r.c r.k r.out),
+      (s.now, CEv.result r.c (if r.out = .panic then .panic else resOf r.k r.out))] ∧
+    (stepS cfg s (.poll c)).circ.st = .opened ∧ (stepS cfg s (.poll c)).running = s.running.eraseP (·.c == c) := by
+  have hopen := pollRunning_opened cfg s c hst
+  simp only [stepS, hf, hfl] at hopen ⊢
+  refine ⟨?_, hopen, ?_⟩
+  · unfold pollRunning complete
+    simp only [hr, hd, hn, ne_eq, not_false_eq_true, and_self, if_true]
+    split
+    · rename_i hp; simp [emit, hp]
+    · rename_i o hno
+      have hq := fun own => record_opened_quiet cfg s.circ (classify cfg r.out r.tag) (s.now - r.start) s.now own hst
+      have hnp : r.out ≠ .panic := by intro h; exact hno h
+      simp [emit, hq, hnp]
+  · unfold pollRunning complete
+    simp only [hr, hd, hn, ne_eq, not_false_eq_true, and_self, if_true]
+    split <;> rfl
 
 /-- The state the model is in is the state an observer of the `on_state_transition` events
 has last seen, and `last_state_change` is the instant of that event. -/
@@ -138,7 +278,7 @@ theorem admitted_from_open (cfg : Cfg) (s : State) (f : Fresh) (hst : s.circ.st 
     (hok : (admitStep cfg s f).2 = true) :
     s.now - s.circ.lastChange ≥ cfg.waitMs ∧ (admitStep cfg s f).1.circ.st = .halfOpen ∧
     (admitStep cfg s f).1.log =
-      s.log ++ [(s.now, CEv.transition .opened .halfOpen), (s.now, CEv.innerCall f.c s.serial)] := by
+      s.log ++ [(s.now, CEv.transition .opened .halfOpen s.circ.mirror), (s.now, CEv.innerCall f.c s.serial)] := by
   have hacq := tryAcquire_acq cfg s.circ s.now
   cases hacq with
   | closed h => rw [hst] at h; cases h
@@ -222,6 +362,26 @@ theorem leaves_open_only_after_wait_or_manual (cfg : Cfg) (s : State) (op : Op)
   | reset => right; left; rfl
   | views => exact absurd hst hleft
 
+/-- Non-vacuity of the trace-level statements, and the one-poll round trip the doc comment of `open_shields` warns about
+(window 1, wait 30): call 1 fails and opens the breaker at 0 (the listener still reads "closed" in its callback); caller 2 at 29 is
+rejected; caller 3 at 30 is the trial: its single poll emits `open → half-open`, `inner_call`, `inner_done`, `half-open → open`
+— the breaker is open before and after that step, which nevertheless reached the wrapped service, between two transition
+events, at `0 + wait`. Then `force_closed`: `open → closed` stands right after the operator's line (`afterOverride`). -/
+example :
+    let cfg : Cfg := { size := 1, minCalls := 1, waitMs := 30, permitted := 1 }
+    let ops := [Op.arrive 1 ⟨0, .err 1⟩ 0, .poll 1, .adv 29, .arrive 2 ⟨0, .ok⟩ 0, .poll 2, .adv 1,
+                .arrive 3 ⟨0, .err 1⟩ 0, .poll 3, .forceClosed]
+    (run cfg ops).log =
+      [(0, .innerCall 1 0), (0, .innerDone 1 0 (.err 1)), (0, .transition .closed .opened .closed), (0, .result 1 (.inner 1 0)),
+       (29, .result 2 .openCircuit),
+       (30, .transition .opened .halfOpen .opened), (30, .innerCall 3 1), (30, .innerDone 3 1 (.err 1)),
+       (30, .transition .halfOpen .opened .halfOpen), (30, .result 3 (.inner 1 1)),
+       (30, .manual "force_closed"), (30, .transition .opened .closed .opened)] ∧
+    (run cfg (ops.take 6)).circ.st = .opened ∧ (run cfg (ops.take 8)).circ.st = .opened ∧
+    afterOverride ((run cfg ops).log.take 11) = true ∧ afterOverride ((run cfg ops).log.take 8) = false ∧
+    lastTarget ((run cfg ops).log.take 5) = .opened ∧ callsSince ((run cfg ops).log.take 5) = 0 := by
+  decide
+
 /-- Non-vacuity: a breaker opened by failures rejects at `wait − 1` and admits (moving to
 half-open) at exactly `wait`. -/
 example :
@@ -241,9 +401,9 @@ example :
     let ops := [Op.forceOpen, .arrive 1 ⟨0, .ok⟩ 0 ⟨5, .ok⟩, .poll 1, .arrive 2 ⟨0, .ok⟩ 0, .poll 2, .views, .forceClosed,
                 .arrive 3 ⟨0, .ok⟩ 0, .poll 3, .adv 5, .poll 1]
     (run cfg ops).log.map (·.2) =
-      [.manual "force_open", .transition .closed .opened, .fbCall 1, .fbCall 2, .result 2 (.fallback 2),
+      [.manual "force_open", .transition .closed .opened .closed, .fbCall 1, .fbCall 2, .result 2 (.fallback 2),
        .views "views state=open sync=open is_open=1 mstate=open total=0 fail=0 succ=0 slow=0 http=503 health=unhealthy",
-       .manual "force_closed", .transition .opened .closed, .innerCall 3 0, .innerDone 3 0 .ok, .result 3 (.ok 0),
+       .manual "force_closed", .transition .opened .closed .opened, .innerCall 3 0, .innerDone 3 0 .ok, .result 3 (.ok 0),
        .result 1 (.fallback 1)] ∧
     (run cfg ops).falling.length = 0 := by decide
 
@@ -384,15 +544,15 @@ example :
     (run cfg a).log.map (·.2) =
       [.manual "trigger_unhealthy",
        .views "views state=closed sync=closed is_open=0 mstate=closed total=0 fail=0 succ=0 slow=0 http=200 health=healthy",
-       .innerCall 1 0, .innerDone 1 0 .ok, .result 1 (.ok 0), .manual "yield", .transition .closed .opened,
+       .innerCall 1 0, .innerDone 1 0 .ok, .result 1 (.ok 0), .manual "yield", .transition .closed .opened .closed,
        .views "views state=open sync=open is_open=1 mstate=open total=0 fail=0 succ=0 slow=0 http=503 health=unhealthy",
        .result 2 .openCircuit] ∧
     (run cfg b).log.map (·.2) =
-      [.manual "inner_down", .innerCall 1 0, .result 2 .notReady, .manual "force_open", .transition .closed .opened,
+      [.manual "inner_down", .innerCall 1 0, .result 2 .notReady, .manual "force_open", .transition .closed .opened .closed,
        .manual "inner_up"] ∧
     ((runM cfg [(1, .forceOpen), (0, .arrive 1 ⟨0, .ok⟩ 0), (0, .poll 1), (1, .arrive 2 ⟨0, .ok⟩ 0), (1, .poll 2)]).get 0).serial = 1 ∧
     ((runM cfg [(1, .forceOpen), (0, .arrive 1 ⟨0, .ok⟩ 0), (0, .poll 1), (1, .arrive 2 ⟨0, .ok⟩ 0), (1, .poll 2)]).get 1).log.map (·.2)
-      = [.manual "force_open", .transition .closed .opened, .result 2 .openCircuit] := by
+      = [.manual "force_open", .transition .closed .opened .closed, .result 2 .openCircuit] := by
   decide
 
 end TR.Props.C03
